@@ -1312,7 +1312,13 @@ pub fn run(out: &mut crate::out::Out, tier: &str, rng: &mut Rng) {
                 1 => json!({"mode": mode, "mappings": {"User0": "string", "chrono::Duration": "number", "std::path::Path": "string", "serde_json::Value": "unknown"}}),
                 2 => json!({"mode": mode, "param_case": "snake_case"}),
                 3 => json!({"mode": mode, "field_case": "camelCase"}),
-                _ => json!({"mode": mode, "mappings": {"PathBuf": "string", "Item1": "number", "Uuid": "string", "DocId": "string"}}),
+                _ => {
+                    // every other time the foreign `DocId` is mapped onto the name of a type the project itself defines
+                    let own: Vec<String> = arr(&p, "files").iter().flat_map(|f| arr(f, "items")).filter(|it| s(it, "k") == "struct" || s(it, "k") == "enum")
+                        .map(|it| s(&it, "name")).filter(|n| n.is_ascii() && n.chars().next().map_or(false, |c| c.is_ascii_uppercase())).collect();
+                    let target = if i % 10 == 9 && !own.is_empty() { own[own.len() - 1].clone() } else { "string".to_string() };
+                    json!({"mode": mode, "mappings": {"PathBuf": "string", "Item1": "number", "Uuid": "string", "DocId": target}})
+                }
             };
             out.case("project", json!({"project": p, "config": cfg}), json!({"gen": if adversarial { "adv" } else { "safe" }, "nfiles": nfiles}));
         }
